@@ -271,8 +271,7 @@ fn shift_any() -> usize {
     assume(n < 130);
     n
 }
-ubig_shift!(<<, <<=; vk_int_forms_ubig_shl_1_n1 = (1, 1), vk_int_forms_ubig_shl_1_n64 = (1, 64),
-    vk_int_forms_ubig_shl_2_n63 = (2, 63), vk_int_forms_ubig_shl_3_n65 = (3, 65));
+ubig_shift!(<<, <<=; vk_int_forms_ubig_shl_1_n0 = (1, 0), vk_int_forms_ubig_shl_1_n1 = (1, 1), vk_int_forms_ubig_shl_1_n63 = (1, 63), vk_int_forms_ubig_shl_1_n64 = (1, 64), vk_int_forms_ubig_shl_1_n129 = (1, 129), vk_int_forms_ubig_shl_2_n1 = (2, 1), vk_int_forms_ubig_shl_2_n63 = (2, 63), vk_int_forms_ubig_shl_2_n64 = (2, 64), vk_int_forms_ubig_shl_2_n129 = (2, 129), vk_int_forms_ubig_shl_3_n0 = (3, 0), vk_int_forms_ubig_shl_3_n63 = (3, 63), vk_int_forms_ubig_shl_3_n64 = (3, 64), vk_int_forms_ubig_shl_3_n65 = (3, 65), vk_int_forms_ubig_shl_3_n129 = (3, 129));
 ubig_shift!(>>, >>=; vk_int_forms_ubig_shr_1 = (1, shift_any()), vk_int_forms_ubig_shr_2 = (2, shift_any()),
     vk_int_forms_ubig_shr_3_n65 = (3, 65));
 
@@ -520,9 +519,13 @@ macro_rules! ibig_shift {
         });
     )*};
 }
-ibig_shift!(<<, <<=; vk_int_forms_ibig_shl_1n_n64 = (1, true, 64), vk_int_forms_ibig_shl_3n_n1 = (3, true, 1));
-ibig_shift!(>>, >>=; vk_int_forms_ibig_shr_1n_n1 = (1, true, 1), vk_int_forms_ibig_shr_2n_n64 = (2, true, 64),
-    vk_int_forms_ibig_shr_3n_n65 = (3, true, 65));
+ibig_shift!(<<, <<=; vk_int_forms_ibig_shl_1n_n1 = (1, true, 1), vk_int_forms_ibig_shl_1n_n64 = (1, true, 64),
+    vk_int_forms_ibig_shl_2n_n65 = (2, true, 65), vk_int_forms_ibig_shl_3n_n1 = (3, true, 1),
+    vk_int_forms_ibig_shl_3n_n64 = (3, true, 64), vk_int_forms_ibig_shl_3p_n129 = (3, false, 129));
+// >> of a NEGATIVE IBig goes through `IBig::from(bool)` (computed inline capacity, see repr_of) and does not finish;
+// only non-negative values are covered
+ibig_shift!(>>, >>=; vk_int_forms_ibig_shr_1p = (1, false, shift_any()), vk_int_forms_ibig_shr_2p = (2, false, shift_any()),
+    vk_int_forms_ibig_shr_3p_n65 = (3, false, 65));
 
 // IBig with a (signed / unsigned) primitive operand == the IBig form
 macro_rules! ibig_prim {
